@@ -22,3 +22,96 @@ pub(crate) fn record_labels(labels_x: Vec<i32>, labels_y: Vec<i32>) {
 pub fn last_labels() -> (Vec<i32>, Vec<i32>) {
     LAST_LABELS.with(|l| l.borrow().clone())
 }
+
+/// All fields of a [crate::Course]:
+/// (index, dbid, name, num_min, num_max, instructors, room_factor bits, room_offset bits, fixed_course, hidden names)
+#[allow(clippy::type_complexity)]
+pub fn course_fields(
+    c: &crate::Course,
+) -> (
+    usize,
+    usize,
+    String,
+    usize,
+    usize,
+    Vec<usize>,
+    u32,
+    u32,
+    bool,
+    Vec<String>,
+) {
+    (
+        c.index,
+        c.dbid,
+        c.name.clone(),
+        c.num_min,
+        c.num_max,
+        c.instructors.clone(),
+        c.room_factor.to_bits(),
+        c.room_offset.to_bits(),
+        c.fixed_course,
+        c.hidden_participant_names.clone(),
+    )
+}
+
+/// All fields of a [crate::Participant]: (index, dbid, name, choices as (course_index, penalty))
+pub fn participant_fields(p: &crate::Participant) -> (usize, usize, String, Vec<(usize, u32)>) {
+    (
+        p.index,
+        p.dbid,
+        p.name.clone(),
+        p.choices
+            .iter()
+            .map(|c| (c.course_index, c.penalty))
+            .collect(),
+    )
+}
+
+/// Build a [crate::Course] from plain data (room factor/offset given as f32 bit patterns)
+#[allow(clippy::too_many_arguments)]
+pub fn make_course(
+    index: usize,
+    dbid: usize,
+    name: String,
+    num_min: usize,
+    num_max: usize,
+    instructors: Vec<usize>,
+    room_factor_bits: u32,
+    room_offset_bits: u32,
+    fixed_course: bool,
+    hidden_participant_names: Vec<String>,
+) -> crate::Course {
+    crate::Course {
+        index,
+        dbid,
+        name,
+        num_min,
+        num_max,
+        instructors,
+        room_factor: f32::from_bits(room_factor_bits),
+        room_offset: f32::from_bits(room_offset_bits),
+        fixed_course,
+        hidden_participant_names,
+    }
+}
+
+/// Build a [crate::Participant] from plain data
+pub fn make_participant(
+    index: usize,
+    dbid: usize,
+    name: String,
+    choices: Vec<(usize, u32)>,
+) -> crate::Participant {
+    crate::Participant {
+        index,
+        dbid,
+        name,
+        choices: choices
+            .into_iter()
+            .map(|(course_index, penalty)| crate::Choice {
+                course_index,
+                penalty,
+            })
+            .collect(),
+    }
+}
